@@ -123,3 +123,127 @@ def build_T11f(tree):
 TARGETS = {
     'T11f': {'file': 'io.py', 'build': build_T11f},
 }
+
+
+def _fetch_block(fn, fname):
+    """The `if self._pixel_array is None:` block of a frame loop that fetches raw bytes itself (get_frames,
+    _get_pixels_by_frame): returns the expressions (lazy arg, raw arg, decode index, cache subscript, cached decode index,
+    single-frame guard statement)."""
+    hits = [n for n in ast.walk(fn) if isinstance(n, ast.If) and ast.unparse(n.test) == 'self._pixel_array is None'
+            and any('read_frame_raw' in ast.unparse(s) for s in n.body)]
+    outer = _one(hits, f'{fname}: fetch block `if self._pixel_array is None`')
+    if len(outer.body) != 2 or not isinstance(outer.body[0], ast.If) or ast.unparse(outer.body[0].test) != 'self._file_reader is not None':
+        raise Unsupported(f'{fname}: un-cached fetch no longer chooses between the file reader and get_raw_frame')
+    lz, mem = outer.body[0].body, outer.body[0].orelse
+    if len(lz) != 1 or len(mem) != 1:
+        raise Unsupported(f'{fname}: un-cached fetch arms changed shape')
+
+    def call_of(st, func, nargs):
+        if not (isinstance(st, ast.Assign) and isinstance(st.value, ast.Call) and ast.unparse(st.value.func) == func
+                and len(st.value.args) == nargs and not st.value.keywords):
+            raise Unsupported(f'{fname}: expected `{ast.unparse(st.targets[0]) if isinstance(st, ast.Assign) else "?"} = {func}(...)`, found {ast.unparse(st)[:80]}')
+        return st
+    a = call_of(lz[0], 'self._file_reader.read_frame_raw', 1)
+    b = call_of(mem[0], 'self.get_raw_frame', 1)
+    if ast.unparse(a.targets[0]) != 'frame_bytes' or ast.unparse(b.targets[0]) != 'frame_bytes':
+        raise Unsupported(f'{fname}: raw bytes are no longer bound to frame_bytes')
+    dec = call_of(outer.body[1], 'frame_transform', 2)
+    if ast.unparse(dec.value.args[0]) != 'frame_bytes' or ast.unparse(dec.targets[0]) != 'frame':
+        raise Unsupported(f'{fname}: the transform is no longer applied to frame_bytes')
+    if len(outer.orelse) != 2 or not isinstance(outer.orelse[0], ast.If) or ast.unparse(outer.orelse[0].test) != 'self.number_of_frames == 1':
+        raise Unsupported(f'{fname}: cached branch changed shape')
+    single, multi = outer.orelse[0].body, outer.orelse[0].orelse
+    if len(single) != 1 or not isinstance(single[0], ast.If) or [ast.unparse(s) for s in single[0].body] != ['frame = self.pixel_array'] \
+            or len(single[0].orelse) != 1 or not isinstance(single[0].orelse[0], ast.Raise):
+        raise Unsupported(f'{fname}: single-frame cached branch changed shape')
+    if len(multi) != 1 or not (isinstance(multi[0], ast.Assign) and isinstance(multi[0].value, ast.Subscript)
+                               and ast.unparse(multi[0].value.value) == 'self.pixel_array' and ast.unparse(multi[0].targets[0]) == 'frame'):
+        raise Unsupported(f'{fname}: the cached frame is no longer self.pixel_array[...] (the revalidating property)')
+    cdec = call_of(outer.orelse[1], 'frame_transform', 2)
+    if ast.unparse(cdec.value.args[0]) != 'frame':
+        raise Unsupported(f'{fname}: the transform is no longer applied to the cached frame')
+    guard = ast.If(test=single[0].test, body=_ret('0'), orelse=[single[0].orelse[0]])
+    ast.fix_missing_locations(guard)
+    return outer, a.value.args[0], b.value.args[0], dec.value.args[1], multi[0].value.slice, cdec.value.args[1], guard
+
+
+def build_T1c(tree):
+    texts, shas = [], []
+    P = [('frame_index', 'int')]
+    for qual, prefix in (('_Image.get_frames', 'frames'), ('_Image._get_pixels_by_frame', 'pixels')):
+        fn = find_func(tree, qual)
+        outer, lazy_arg, raw_arg, dindex, csub, cdindex, guard = _fetch_block(fn, qual)
+        texts.append(translate_block(_ret(ast.unparse(lazy_arg)), f'{prefix}LazyArg', P, {},
+                                     doc=f'`{qual}`: the index handed to `self._file_reader.read_frame_raw` (lazily read image)'))
+        texts.append(translate_block(_ret('(' + ast.unparse(raw_arg) + ', False)'), f'{prefix}RawArgs', P, {},
+                                     doc=f'`{qual}`: the arguments of `self.get_raw_frame` (one positional argument; as_index keeps its default False)'))
+        texts.append(translate_block(_ret(ast.unparse(dindex)), f'{prefix}DecodeIndex', P, {},
+                                     doc=f'`{qual}`: the frame index handed to the transform that decodes the raw bytes'))
+        texts.append(translate_block(_ret(ast.unparse(csub)), f'{prefix}CacheIndex', P, {},
+                                     doc=f'`{qual}`: subscript of the cached `pixel_array` (number_of_frames != 1)'))
+        texts.append(translate_block([guard], f'{prefix}SingleGuard', P, {},
+                                     doc=f'`{qual}`: single-frame image with a cached array: which frame_index is answered (0) / refused'))
+        shas.append(span_sha([outer]))
+    # get_frames: every requested number goes through _standardize_frame_index(frame_number, as_indices) inside the loop
+    fn = find_func(tree, '_Image.get_frames')
+    loop = _one([n for n in ast.walk(fn) if isinstance(n, ast.For) and ast.unparse(n.iter) == 'frame_numbers'], 'get_frames loop')
+    first = loop.body[0]
+    if ast.unparse(first) != 'frame_index = self._standardize_frame_index(frame_number, as_indices)' or ast.unparse(loop.target) != 'frame_number':
+        raise Unsupported('get_frames: the loop no longer starts with frame_index = self._standardize_frame_index(frame_number, as_indices)')
+    # get_raw_frame: delegation to the file reader with the standardised index, before the in-memory branches
+    fn = find_func(tree, '_Image.get_raw_frame')
+    body = [s for s in fn.body if not (isinstance(s, ast.Expr) and isinstance(s.value, ast.Constant))]
+    if ast.unparse(body[0]) != 'frame_index = self._standardize_frame_index(frame_number, as_index)':
+        raise Unsupported('get_raw_frame no longer starts by standardising the frame number')
+    dele = body[1]
+    if not (isinstance(dele, ast.If) and ast.unparse(dele.test) == 'self._file_reader is not None' and len(dele.body) == 1
+            and isinstance(dele.body[0], ast.With) and [ast.unparse(i.context_expr) for i in dele.body[0].items] == ['self._file_reader']
+            and len(dele.body[0].body) == 1 and isinstance(dele.body[0].body[0], ast.Return)):
+        raise Unsupported('get_raw_frame: delegation to the file reader changed shape')
+    call = dele.body[0].body[0].value
+    if not (isinstance(call, ast.Call) and ast.unparse(call.func) == 'self._file_reader.read_frame_raw' and len(call.args) == 1 and not call.keywords):
+        raise Unsupported('get_raw_frame: no longer returns self._file_reader.read_frame_raw(<index>)')
+    texts.append(translate_block(_ret(ast.unparse(call.args[0])), 'rawLazyArg', P, {},
+                                 doc='`get_raw_frame` on a lazily read image: the index handed to `self._file_reader.read_frame_raw`'))
+    shas.append(span_sha(body[:2]))
+    # pixel_array on a lazily read image: whole array = get_stored_frame(1) / get_stored_frames(), cached afterwards
+    fn = find_func(tree, '_Image.pixel_array')
+    lz = _one([n for n in ast.walk(fn) if isinstance(n, ast.If) and ast.unparse(n.test) == 'self._file_reader is not None'], 'pixel_array lazy test')
+    inner = lz.body[0]
+    want = ("if self._pixel_array is None:\n    if self.number_of_frames == 1:\n        pixel_array = self.get_stored_frame(1)\n"
+            "    else:\n        pixel_array = self.get_stored_frames()\n    self._pixel_array = pixel_array\nelse:\n    return self._pixel_array")
+    if len(lz.body) != 1 or ast.unparse(inner) != want or lz.orelse:
+        raise Unsupported('pixel_array: the lazy branch changed: ' + ast.unparse(inner)[:200])
+    rest = fn.body[fn.body.index(lz) + 1:]
+    if [ast.unparse(s) for s in rest] != ['return super().pixel_array']:
+        raise Unsupported('pixel_array no longer defers to pydicom after the lazy branch')
+    texts.append('/-- `pixel_array` on a lazily read image (textually pinned): frame number handed to `get_stored_frame` for a single-frame '
+                 'image; a multi-frame image calls `get_stored_frames()` with its defaults -/\ndef pixelArrayLazySingleNumber : Int := 1')
+    shas.append(span_sha([lz] + rest))
+    # the decode parameters of the frame transform: decode_frame(param=self.X) in __call__, self.X = image... in __init__
+    call_fn = find_func(tree, '_CombinedPixelTransform.__call__')
+    init_fn = find_func(tree, '_CombinedPixelTransform.__init__')
+    dec = _one([n for n in ast.walk(call_fn) if isinstance(n, ast.Call) and ast.unparse(n.func) == 'decode_frame'], 'decode_frame call of the transform')
+    if dec.args or any(k.arg is None for k in dec.keywords):
+        raise Unsupported('transform: decode_frame is no longer called with keywords only')
+    assigns = {}
+    for n in ast.walk(init_fn):
+        if isinstance(n, ast.Assign) and len(n.targets) == 1 and ast.unparse(n.targets[0]).startswith('self.'):
+            assigns.setdefault(ast.unparse(n.targets[0]), []).append(ast.unparse(n.value))
+    rows = []
+    for k in sorted(dec.keywords, key=lambda k: k.arg):
+        v = ast.unparse(k.value)
+        if v.startswith('self.'):
+            src = assigns.get(v, [])
+            if len(src) != 1:
+                raise Unsupported(f'transform: {v} is not assigned exactly once in __init__')
+            v = src[0]
+        rows.append((k.arg, v))
+    texts.append('/-- the frame transform behind `get_frame(s)` / `get_volume` / `get_total_pixel_matrix`: parameter of `decode_frame` -> '
+                 'expression it is fed from (attribute of the transform resolved to its assignment in `__init__`) -/\n'
+                 'def transformDecodeArgs : List (String × String) :=\n  [' + ',\n   '.join(f'({_q(a)}, {_q(b)})' for a, b in rows) + ']')
+    shas.append(hashlib.sha256(repr(rows).encode()).hexdigest())
+    return '\n\n'.join(texts), hashlib.sha256(''.join(shas).encode()).hexdigest()
+
+
+TARGETS['T1c'] = {'file': 'image.py', 'build': build_T1c}
